@@ -110,7 +110,11 @@ class Executor:
         if len(needed) == 0:
             return []
 
-        if needed not in cache:
+        # The order also depends on which nodes already have their output loaded
+        loaded = frozenset(node for node in G.nodes if 'output' in G.nodes[node])
+        key = (needed, loaded)
+
+        if key not in cache:
             # Resolve the nodes that need to be executed in the graph
             nodes_to_execute = set(needed)
 
@@ -138,9 +142,9 @@ class Executor:
                 nodes_to_execute.update(nx.ancestors(dep_graph, needed_node))
 
             # Turn in to a sorted list and cache
-            cache[needed] = [n for n in sort_order if n in nodes_to_execute]
+            cache[key] = [n for n in sort_order if n in nodes_to_execute]
 
-        return cache[needed]
+        return cache[key]
 
     @staticmethod
     def _run(fn, node, G):
